@@ -10,6 +10,10 @@ pub struct Model {
 }
 
 impl Model {
+    pub fn pid(&self) -> u32 {
+        self.child.id()
+    }
+
     pub fn spawn(path: &str) -> std::io::Result<Model> {
         let mut child = Command::new(path).stdin(Stdio::piped()).stdout(Stdio::piped()).spawn()?;
         let stdin = child.stdin.take().unwrap();
